@@ -1,6 +1,8 @@
 import Driver.Common
+import JaqVerif.C09.Consumers
 
 namespace Jaq.Driver.C09
+open Jaq.C09
 
 def binop (op : String) (a b : Val) : String :=
   match op with
@@ -10,6 +12,58 @@ def binop (op : String) (a b : Val) : String :=
   | "div" => showValR (Val.div a b)
   | "rem" => showValR (Val.rem a b)
   | _ => "bad-op"
+
+def showOrd : Ordering → String
+  | .lt => "lt"
+  | .eq => "eq"
+  | .gt => "gt"
+
+def showC {α : Type} (f : α → String) : Except CErr α → String
+  | .ok v => "V " ++ f v
+  | .error e => "E " ++ e.cls
+
+def optVal : Option Val → Val
+  | some v => v
+  | none => .null
+
+/-- `ldexp(1.0; i)` = 2^i correctly rounded (exact for the normal range, subnormal below, overflow above) -/
+def ldexp1 (i : Int) : UInt64 :=
+  if i > 1100 then F64.posInf
+  else if i < -1200 then F64.posZero
+  else if i ≥ 0 then F64.roundRat false (2 ^ i.toNat) 1
+  else F64.roundRat false 1 (2 ^ (-i).toNat)
+
+/-- items of a run: the marker `true` stands for an error item -/
+def isMarker : Val → Bool
+  | .bool true => true
+  | _ => false
+
+/-- the generator of the harness raises an error for the element `"E"` -/
+def markErr : Val → Val
+  | .tstr [0x45] => .bool true
+  | v => v
+
+def pairsOf : List Val → Option (List (Val × Val))
+  | [] => some []
+  | .arr [k, v] :: r => (pairsOf r).map fun t => (k, v) :: t
+  | _ => none
+
+def strsOf : List Val → Option (List (List UInt8))
+  | [] => some []
+  | .tstr b :: r => (strsOf r).map fun t => b :: t
+  | _ => none
+
+def two (toks : List String) (f : Val → Val → String) : String :=
+  withVals 2 toks fun vs =>
+    match vs with
+    | [a, b] => f a b
+    | _ => "bad-request"
+
+def three (toks : List String) (f : Val → Val → Val → String) : String :=
+  withVals 3 toks fun vs =>
+    match vs with
+    | [a, b, c] => f a b c
+    | _ => "bad-request"
 
 def handlers : List (String × Handler) := [
   ("c09.bin", fun toks =>
@@ -22,7 +76,80 @@ def handlers : List (String × Handler) := [
   ("c09.neg", fun toks => withVals 1 toks fun vs =>
     match vs with
     | [a] => showValR (Val.neg a)
-    | _ => "bad-request")
+    | _ => "bad-request"),
+  ("c09.cmp", fun toks => two toks fun a b =>
+    match a, b with
+    | .num x, .num y => showOrd (numCmp x y)
+    | _, _ => "bad-request"),
+  ("c09.eq", fun toks => two toks fun a b =>
+    match a, b with
+    | .num x, .num y => if Num.eq x y then "T" else "F"
+    | _, _ => "bad-request"),
+  ("c09.len", fun toks => withVals 1 toks fun vs =>
+    match vs with
+    | [.num n] => "V " ++ showVal (.num (Num.length n))
+    | _ => "bad-request"),
+  ("c09.idx", fun toks => two toks fun c i =>
+    match c with
+    | .arr a => showC (fun o => showVal (optVal o)) (indexArr a i)
+    | .bstr b => showC (fun o => showVal (optVal o)) (indexBytes b i)
+    | _ => "bad-request"),
+  ("c09.slice", fun toks => three toks fun c lo hi =>
+    match c with
+    | .arr a => showC (fun r => showVal (.arr r)) (sliceArr a lo hi)
+    | .bstr b => showC (fun r => showVal (.bstr r)) (sliceBytes b lo hi)
+    | .tstr b => showC (fun r => showVal (.tstr r)) (sliceText b lo hi)
+    | _ => "bad-request"),
+  ("c09.limit", fun toks => two toks fun n xs =>
+    match n, xs with
+    | .num n, .arr xs => "V " ++ showVal (.arr (limit n (xs.map markErr)))
+    | _, _ => "bad-request"),
+  ("c09.skip", fun toks => two toks fun n xs =>
+    match n, xs with
+    | .num n, .arr xs => "V " ++ showVal (.arr (skip isMarker n (xs.map markErr)))
+    | _, _ => "bad-request"),
+  ("c09.range", fun toks => three toks fun a b c =>
+    match a, b, c with
+    | .num a, .num b, .num c => "V " ++ showVal (.arr ((range 12 a b c).map .num))
+    | _, _, _ => "bad-request"),
+  ("c09.tobytes", fun toks => withVals 1 toks fun vs =>
+    match vs with
+    | [v] =>
+      match toBytes v with
+      | some b => "V " ++ showVal (.bstr b)
+      | none => "E other"
+    | _ => "bad-request"),
+  ("c09.implode", fun toks => withVals 1 toks fun vs =>
+    match vs with
+    | [.arr a] => showC (fun b => showVal (.tstr b)) (implode a)
+    | _ => "bad-request"),
+  ("c09.i32", fun toks => withVals 1 toks fun vs =>
+    match vs with
+    | [v] => showC (fun i => showVal (.num (.float (ldexp1 i)))) (tryAsI32 v)
+    | _ => "bad-request"),
+  ("c09.key", fun toks => two toks fun es k =>
+    match es with
+    | .arr l =>
+      match pairsOf l with
+      | some ps =>
+        let o := Obj.ofList ps
+        showVal (.obj o) ++ " | " ++ (match Obj.get o k with | some v => showVal v | none => "-")
+      | none => "bad-request"
+    | _ => "bad-request"),
+  ("c09.show", fun toks => withVals 1 toks fun vs =>
+    match vs with
+    | [.num n] =>
+      match renderInt n with
+      | some t => "H" ++ hexOfBytes t
+      | none => "none"
+    | _ => "bad-request"),
+  ("c09.join", fun toks => two toks fun sep parts =>
+    match sep, parts with
+    | .tstr s, .arr l =>
+      match strsOf l with
+      | some ps => "V " ++ showVal (.tstr (joinBytes s ps))
+      | none => "bad-request"
+    | _, _ => "bad-request")
 ]
 
 end Jaq.Driver.C09
